@@ -44,6 +44,11 @@ func vgenValue(r *vrand, ntok int, kind int) string {
 			}
 		}
 	}
+	// values that END in a word with multi-byte characters (byte length and rune count differ exactly
+	// where the byte range of a match is computed from its last token)
+	if kind == 2 && r.chance(1, 2) {
+		ws = append(ws, []string{"libert\u00e9", "\u8bb8\u53ef\u8bc1", "na\u00efve", "stra\u00dfe", "\u00a9"}[r.intn(5)])
+	}
 	return strings.Join(ws, " ")
 }
 
@@ -141,17 +146,27 @@ func TestVerifC13(t *testing.T) {
 			o.verdict("C13", fmt.Sprintf("s%d_near%d", si, i), what == "", true, "near:"+hxs(v), map[string]interface{}{"what": what, "values_hex": vhexAll(values), "i": i})
 		}
 		// plant a verbatim copy of one value in unrelated text
-		for k := 0; k < 4; k++ {
+		for k := 0; k < 5; k++ {
 			vi := rr.intn(len(values))
 			v := values[vi]
 			pre, post := vfiller(rr, rr.intn(6)), vfiller(rr, rr.intn(6))
+			if k == 4 {
+				// an INEXACT hit at the very end of the text: the value without its last words (its byte
+				// range is shorter than the value; Offset+Extent must still stay inside the text)
+				ws := strings.Fields(v)
+				if len(ws) < 12 {
+					continue
+				}
+				v = strings.Join(ws[:len(ws)*85/100], " ")
+				post = ""
+			}
 			if k == 3 { // two (sometimes three) copies of the same value: each must be reported
 				pre = pre + " " + v + " " + vfiller(rr, 1+rr.intn(5))
 				if rr.chance(1, 3) {
 					post = vfiller(rr, 1+rr.intn(3)) + " " + v + " " + post
 				}
 			}
-			if k == 2 {
+			if k == 2 || k == 4 {
 				post = "" // copy at the very end
 			}
 			if k == 1 {
@@ -207,7 +222,7 @@ func TestVerifC13(t *testing.T) {
 					}
 				}
 				// token-aligned occurrences of normV in normU
-				if what == "" && normV != "" {
+				if what == "" && normV != "" && k != 4 { // k == 4 plants no verbatim copy
 					off := strings.Index(" "+normU+" ", " "+strings.TrimSpace(normV)+" ")
 					if strings.TrimSpace(normV) != normV {
 						// the registered text itself begins/ends with a blank: the copy is where that exact text occurs
@@ -232,6 +247,15 @@ func TestVerifC13(t *testing.T) {
 					}
 				}
 			}
+			inside := ""
+			if !pan {
+				for _, m := range ms {
+					if m.Offset < 0 || m.Extent < 0 || m.Offset+m.Extent > len(normU) {
+						inside = fmt.Sprintf("match %+v cannot slice the normalised unknown (%d bytes)", *m, len(normU))
+					}
+				}
+			}
+			o.verdict("C17", fmt.Sprintf("s%d_slice%d", si, k), inside == "", len(ms) > 0, "slice:"+hxs(unknown), map[string]interface{}{"what": inside, "unknown_hex": hxs(unknown), "values_hex": vhexAll(values), "threshold": th})
 			o.verdict("C13", fmt.Sprintf("s%d_plant%d", si, k), what == "", true, "plant:"+hxs(unknown)+"|"+strings.Join(vhexAll(values), ","), map[string]interface{}{"what": what, "unknown_hex": hxs(unknown), "values_hex": vhexAll(values), "planted": vi, "threshold": th})
 		}
 	}
